@@ -117,7 +117,7 @@ impl Monitor for C17 {
          monogamous identity/chain, non-injective interface) then seeded diagrams: dense <=6 nodes with arity <=4, small free diagrams, monogamous acyclic \
          circuits (so that `true` is observed often), and single perturbations of monogamous circuits. Every call's outcome (value or panic) is recorded per \
          build profile. Oracle: DFS reachability on node-level successor lists; monogamy by counting in-degree + #occurrences in the source interface = 1 \
-         (and dually) per node with injective legs; degrees by counting occurrences. non-trivial = >=1 node; distinct = hash of the plain diagram."
+         (and dually) per node with injective legs; degrees by counting occurrences. non-trivial = >=1 node; distinct = hash of the plain diagram. Also: a path of 3000 operations (open and closed by one back reference), one 64->64 operation, one dependency of multiplicity 64x64."
     }
     fn corpus_len(&self) -> u64 {
         corpus().len() as u64
